@@ -182,7 +182,7 @@ claim("C02", "model_checking", "TLA+ WebAssembly numeric/memory semantics evalua
 claim("C03", "model_checking", "TLA+ reference semantics (WasmNum.tla cases from TLC) + execution of every case in the C program generated by wat2c, compiled with clang -O0 and -O2",
       "The hub's module (one exported function per numeric operator, per store/load combination with offsets, per bounds probe, per constant immediate) is translated with "
       "wat2c, compiled with clang at -O0 and -O2 and every TLC case is executed; the value, or abnormal termination where a trap is specified, must match the specification. "
-      "Cases that kill the process are isolated by restarting after them.",
+      "Every case specified to trap runs in a process of its own (without bounds checks an untrapped store damages the host program), the defined cases between two of them share one; a case that kills its process is restarted after.",
       "Trusted: TLC, BV.tla, clang. Integer subset; float operators, control-flow skeletons and exported-memory effects beyond the loaded value are not in the case space. "
       "Open known finding: wat2c emits no bounds checks.",
       "DESIGN.md section 4 (WebAssembly hub)")
